@@ -57,3 +57,10 @@ func (hvs *HeightVoteSet) VerifCatchupRounds() string {
 	}
 	return b.String()
 }
+
+// VerifRoundCount is the number of rounds this height's vote bookkeeping holds vote sets for.
+func (hvs *HeightVoteSet) VerifRoundCount() int {
+	hvs.mtx.Lock()
+	defer hvs.mtx.Unlock()
+	return len(hvs.roundVoteSets)
+}
